@@ -67,7 +67,7 @@ MISSED = {
     "C19_h": "the phase-noise channel was gradient-checked on complex inputs only -> real inputs as well",
     "C20_h": "integer inputs were int32/int64 -> uint8, int8 and int16 too, and syndrome decoders on codes whose redundancy exceeds 8 bits (BCH(15,7), BCH(15,5), Golay)",
     "C03_i": "the quick tier stopped at BCH mu = 4 -> all BCH codes mu <= 6 in C03's quick tier; where exact d is out of reach, words of weight <= 2 are ruled out through the columns of a reference check matrix",
-    "C07_i": "finiteness of noise samples was never asked for and rare draws were out of reach of 4M-sample units -> 9 x 2^24 Laplacian samples (27 x thorough) must all be finite",
+    "C07_i": "finiteness of noise samples was never asked for and rare draws were out of reach of 4M-sample units -> 9 x 2^24 Laplacian samples (36 x 2^24 in the thorough tier) must all be finite",
     "C11_i": "SC-vs-textbook cases with intermediate values above the check-node clip were skipped -> the reference models the documented check-node clip, and long codes (N = 256, 1024) with unordered user masks are added",
     "C12_i": "erasure symbols were finite numbers -> NaN and inf as erasure symbols (a natural choice for 'erased')",
     "C15_i": "polar consumers were (8,4) codes without bit reversal -> interleaved N = 16 / 32, N = 32 SC and BP, soft RM(2,4)",
